@@ -168,6 +168,8 @@ type Run struct {
 	pcSet    map[*Term]bool
 	clockConcrete bool
 	viper    map[string]Value
+	viperFile string
+	viperSerial int
 	nowCount int
 	lastNow *Term
 	envChans []*Chan
